@@ -177,11 +177,13 @@ class Token:
 
 
 class FloatVal:
-    """f32/f64 value: bits is a python int or a z3 BitVec"""
-    __slots__ = ('bits', 'ty', 'src')
+    """f32/f64 value: bits is a python int or a z3 BitVec; src = the text it was parsed from; ops = what was done to it since"""
+    __slots__ = ('bits', 'ty', 'src', 'ops', 'parsed_as')
 
     def __init__(s, bits, ty, src=None):
         s.bits, s.ty, s.src = bits, ty, src
+        s.ops = None
+        s.parsed_as = ty
 
     def __repr__(s):
         return f'{s.ty}({s.bits if isinstance(s.bits, int) else "sym"}{"" if s.src is None else " from " + repr(s.src)})'
@@ -1263,6 +1265,31 @@ class Compiler:
                         return v
                     raise Unsupported(f'IntToInt cast of {v!r}')
                 return _cast
+            if kind == 'FloatToFloat':
+                def _f2f(fr):
+                    v = op(fr)
+                    if not isinstance(v, FloatVal):
+                        raise Unsupported(f'FloatToFloat cast of {v!r}')
+                    if v.ty == ty:
+                        return v
+                    if isinstance(v.bits, int):
+                        import struct
+                        if v.ty == 'f64' and ty == 'f32':
+                            x = struct.unpack('<d', struct.pack('<Q', v.bits))[0]
+                            try:
+                                nb = struct.unpack('<I', struct.pack('<f', x))[0]
+                            except OverflowError:
+                                nb = 0x7F800000 | (0x80000000 if x < 0 else 0)
+                        else:
+                            x = struct.unpack('<f', struct.pack('<I', v.bits))[0]
+                            nb = struct.unpack('<Q', struct.pack('<d', x))[0]
+                        r = FloatVal(nb, ty, v.src)
+                    else:
+                        r = FloatVal(None, ty, v.src)
+                    r.ops = list(getattr(v, 'ops', None) or []) + [f'{v.ty}->{ty} cast']
+                    r.parsed_as = getattr(v, 'parsed_as', v.ty)
+                    return r
+                return _f2f
             if kind in ('PtrToPtr', 'Transmute', 'PointerCoercion(MutToConstPointer, Implicit)', 'PointerCoercion(ReifyFnPointer, Implicit)',
                         'PointerCoercion(ReifyFnPointer(Safe), Implicit)'):
                 return op
